@@ -33,6 +33,7 @@ var (
 	fBatch    = flag.Int("sim.batch", 0, "first batch index")
 	fN        = flag.Int("sim.n", 100, "number of seeds (digest mode)")
 	fReplays  = flag.String("sim.replaydir", "", "directory for replay files")
+	fBig      = flag.Bool("sim.big", false, "thorough tier: larger populations (one more client, twice the requests per client, one more generation)")
 	fDump     = flag.Bool("sim.dump", false, "digest mode: print the event logs too")
 	fDigest   = flag.Bool("sim.digest", false, "print one event-log digest per seed instead of checking (determinism self-test)")
 )
@@ -339,6 +340,11 @@ func ledgerEngine(prop string, known []KnownFinding) *engine {
 		}
 		if *fMask {
 			p = applyMask(p, known, prop)
+		}
+		if *fBig {
+			p.MaxClients++
+			p.MaxOps *= 2
+			p.MaxGens++
 		}
 		profs = append(profs, p)
 	}
